@@ -39,26 +39,38 @@ theorem c14_fact_sections_exist :
 
 /-- Sequential consistency of the model, for EVERY schedule: any number of concurrent queries `qs`,
     any list of thread ids of any length (a thread id may repeat arbitrarily, be starved, or not exist),
-    from any state satisfying `CacheInv` with no list closed: every thread that has finished returned
-    `pureAnswer` of its query -- the answer a fresh engine gives sequentially (C13). -/
-theorem c14_sc {R : Type} (env : Env R) (s : State R) (qs : List Query) (sched : List Nat)
-    (hc : CacheInv env s) (h0 : s.closed = []) :
+    from any state satisfying the shared invariant with no list closed: no thread crashes, and every thread
+    that has finished returned `pureAnswer` of its query -- the answer a fresh engine gives sequentially
+    (C13).  The lazy-compile cells are part of the state: two threads may race to `preparePattern` of one
+    rule object; the loser of the mutex finds the winner's result, which `CellInv` says is its own. -/
+theorem c14_sc {R Re : Type} (env : Env R Re) (s : State R Re) (qs : List Query) (sched : List Nat)
+    (hs : SInv env s) (h0 : s.closed = []) :
     ∀ t ∈ (Config.run env ⟨s, qs.map Thread.init⟩ (sched.map Ev.run)).threads,
-      t.pc = .done → t.answer env = pureAnswer env t.q := by
-  have hinit : CInv Eq env ⟨s, qs.map Thread.init⟩ ∧ (⟨s, qs.map Thread.init⟩ : Config R).state.closed = [] := by
-    refine ⟨⟨hc, ?_⟩, h0⟩
-    intro t ht
-    simp only [List.mem_map] at ht
-    obtain ⟨q, _, rfl⟩ := ht
-    exact good_init Eq env q
+      t.pc ≠ .crash ∧ (t.pc = .done → t.answer = pureAnswer env t.q) := by
+  have hinit : CInv (GoodEq env) env ⟨s, qs.map Thread.init⟩ ∧ (⟨s, qs.map Thread.init⟩ : Config R Re).state.closed = [] :=
+    ⟨cinv_init _ env s qs hs (goodEq_init env), h0⟩
   have h := run_cinv_eq sched _ hinit
-  intro t ht hd
-  exact answer_of_good_eq (h.1.2 t ht) hd
+  intro t ht
+  exact ⟨(h.1.2 t ht).1.2.2, fun hd => answer_of_goodEq (h.1.2 t ht).1.1 (h.1.2 t ht).2 hd⟩
+
+/-- The shared invariant holds after every schedule (so a later batch of queries starts from a good state). -/
+theorem c14_sc_state {R Re : Type} (env : Env R Re) (s : State R Re) (qs : List Query) (sched : List Nat)
+    (hs : SInv env s) (h0 : s.closed = []) :
+    SInv env (Config.run env ⟨s, qs.map Thread.init⟩ (sched.map Ev.run)).state :=
+  (run_cinv_eq sched _ ⟨cinv_init _ env s qs hs (goodEq_init env), h0⟩).1.1
+
+/-- `matchPattern` reads `f.regex` OUTSIDE the rule mutex (the action `rx`), after its own call of
+    `preparePattern` returned 1.  That read never finds nil, whatever the other threads do in between:
+    no action of any thread changes a cell that is set (`CellsLe`), so `RxOK` -- established by the thread's
+    own `prep` -- survives every interleaving. -/
+theorem c14_regex_read_outside_lock {R Re : Type} (env : Env R Re) (s : State R Re) (t u : Thread R)
+    (h : RxOK s t) : RxOK (step env s u).1 t :=
+  rxOK_mono (step_cellsLe env s u) h
 
 /-- The threads keep their queries: thread `i` of the final configuration still runs `qs[i]`. -/
-theorem c14_sc_queries {R : Type} (env : Env R) (s : State R) (qs : List Query) (sched : List Ev) :
+theorem c14_sc_queries {R Re : Type} (env : Env R Re) (s : State R Re) (qs : List Query) (sched : List Ev) :
     (Config.run env ⟨s, qs.map Thread.init⟩ sched).threads.map (·.q) = qs := by
-  have key : ∀ (sched : List Ev) (c : Config R), (Config.run env c sched).threads.map (·.q) = c.threads.map (·.q) := by
+  have key : ∀ (sched : List Ev) (c : Config R Re), (Config.run env c sched).threads.map (·.q) = c.threads.map (·.q) := by
     intro sched
     induction sched with
     | nil => intro c; rfl
@@ -71,7 +83,7 @@ theorem c14_sc_queries {R : Type} (env : Env R) (s : State R) (qs : List Query) 
       cases e with
       | close l => rfl
       | run tid =>
-        simp only [Config.exec]
+        simp only [Config.exec, Config.execG]
         cases ht : c.threads[tid]? with
         | none => rfl
         | some t =>
@@ -87,21 +99,26 @@ theorem c14_sc_queries {R : Type} (env : Env R) (s : State R) (qs : List Query) 
   rw [key]; simp [List.map_map, Function.comp_def, Thread.init]
 
 /-- No thread can be blocked by another: the actions are total, and from ANY shared state reached
-    concurrently a started thread that is given `fuel` more actions of its own finishes. -/
-theorem c14_progress {R : Type} (env : Env R) (s : State R) (t : Thread R) (hs : t.pc ≠ .start) :
-    (runThread env t.fuel s t).2.pc = .done :=
+    concurrently a started thread that is given `fuel` more actions of its own has finished (or crashed --
+    which `c14_sc` excludes). -/
+theorem c14_progress {R Re : Type} (env : Env R Re) (s : State R Re) (t : Thread R) (hs : t.pc ≠ .start) :
+    (runThread env (t.fuel env) s t).2.pc = .done ∨ (runThread env (t.fuel env) s t).2.pc = .crash :=
   runThread_done env _ s t hs (Nat.le_refl _)
 
 /-- Non-vacuity (1): two concurrent queries on a cold cache, interleaved action by action: both miss,
-    both read, both insert -- and both return the stateless answer. -/
+    both read, one inserts and the other adopts the inserted object, both meet at `preparePattern` of the same
+    rule object (the first compiles, the second finds `regex` set) -- and both return the stateless answer. -/
 example :
-    let env : Env Nat := { truth := fun i => if i == 10 then some 7 else none,
-                           listOf := fun _ => 1, ruleId := id, etld1 := id,
-                           cands := fun _ => [10], mtch := fun _ _ => true, resident := [] }
+    let env : Env Nat Nat :=
+      { truth := fun i => if i == 10 then some 7 else none, listOf := fun _ => 1, etld1 := id,
+        cands := fun _ => [(true, 10)], hcands := fun _ => [], basic := fun _ => false,
+        wants := fun _ _ => true, pre := fun _ _ => true, compile := fun _ => .re 5,
+        accepts := fun x _ _ => x == 5, resident := [] }
     let q : Query := .web {}
-    let c := Config.run env ⟨{}, [Thread.init q, Thread.init q]⟩ ([0,1,0,1,0,1,0,1,0,1,0,1,0,1].map Ev.run)
-    c.threads.map (fun t => (t.pc.isDone, t.answer env)) = [(true, [7]), (true, [7])] ∧
-      c.state.cache = [(10, 7)] := by decide
+    let c := Config.run env ⟨{}, [Thread.init q, Thread.init q]⟩
+      ([0,1,0,1,0,1,0,1,0,1,0,1,0,1,0,1,0,1,0,1].map Ev.run)
+    c.threads.map (fun t => (t.pc.isDone, t.answer)) = [(true, ([7], [])), (true, ([7], []))] ∧
+      c.state.cache = [(10, 7)] ∧ c.state.cells (.st 10) = .compiled 5 := by decide
 
 /-- Non-vacuity (2), the theorem DEPENDS on the assumed granularity: in the variant model where
     `Seek` and `readLine` are two separate actions (the list mutex of `FileRuleList.RetrieveRule`
